@@ -153,3 +153,42 @@ def sliding_families(P, G, tier, default_flags=False, step=1, pool=None, max_off
                              family=f'{tag}{nm}', mandatory=False, validate_every=60, **kw)
             jb.small = True; J.append(jb)
     return J
+
+
+# Long runs: every byte-wise loop of the grammar gets a run long enough that a block-wise / look-ahead fast path would engage (8, 16, 32
+# bytes in view), with a short symbolic window inside the run and a complete message behind it. Added after round 6 of the seeded
+# changes (DESIGN section 12): three independent agents introduced word-at-a-time fast paths into loops that were byte-wise.
+LONGRUN = {
+    'lead-empty':      ('req',  b'',                       b'\r\n', b'GET / HTTP/1.1\r\nA: b\r\n\r\n',  dict(multi_sp_req='sym')),
+    'method':          ('req',  b'',                       b'M',    b' / HTTP/1.1\r\nA: b\r\n\r\n',     dict(multi_sp_req='sym')),
+    'req-sp1':         ('req',  b'GET',                    b' ',    b'/x HTTP/1.1\r\nA: b\r\n\r\n',     dict(multi_sp_req='sym')),
+    'req-sp2':         ('req',  b'GET /x',                 b' ',    b'HTTP/1.1\r\nA: b\r\n\r\n',        dict(multi_sp_req='sym')),
+    'resp-lead-empty': ('resp', b'',                       b'\r\n', b'HTTP/1.1 200 OK\r\nA: b\r\n\r\n', dict(multi_sp_resp='sym')),
+    'resp-sp1':        ('resp', b'HTTP/1.1',               b' ',    b'200 OK\r\nA: b\r\n\r\n',          dict(multi_sp_resp='sym')),
+    'resp-sp2':        ('resp', b'HTTP/1.1 200',           b' ',    b'OK\r\nA: b\r\n\r\n',              dict(multi_sp_resp='sym')),
+    'ows-run':         ('headers', b'N:',                  b' \t',  b'v\r\nB: c\r\n\r\n',                {}),
+    'trail-ws-run':    ('headers', b'N: v',                b' ',    b'\r\nB: c\r\n\r\n',                 {}),
+    'ignored-run':     ('resp', RESP_LINE + b'bad',        b'x',    b'\r\nA: b\r\n\r\n',                 dict(ignore_resp='sym', obs_fold='sym')),
+    'ignored-run-req': ('req',  REQ_LINE + b'b d',         b'x',    b'\nA: b\n\n',                        dict(ignore_req='sym')),
+    'fold-run':        ('resp', RESP_LINE + b'A: b\r\n ',  b'c',    b'\r\nD: e\r\n\r\n',                 dict(obs_fold='sym', ignore_resp='sym')),
+    'fold-ws-run':     ('resp', RESP_LINE + b'A: b\r\n',   b' \t',  b'c\r\nD: e\r\n\r\n',                dict(obs_fold='sym', ignore_resp='sym')),
+    'name-sp-run':     ('resp', RESP_LINE + b'N',          b' ',    b': v\r\n\r\n',                       dict(sp_after_name='sym', ignore_resp='sym')),
+    'first-sp-run':    ('resp', RESP_LINE,                 b' \t',  b'N: v\r\n\r\n',                      dict(sp_before_first='sym', ignore_resp='sym')),
+}
+
+
+def longrun_families(P, G, tier, which, **kw):
+    J = []
+    w = T(tier, 2, 3)
+    lengths = (7, 8, 9, 16, 17, 33) if tier == 'quick' else tuple(range(3, 41))
+    for nm in which:
+        kind, head, fill, tail, fl = LONGRUN[nm]
+        for L in lengths:
+            run = (fill * L)[:L]
+            offs = sorted(set((0, L // 2, L - w))) if tier == 'quick' else range(0, L - w + 1)
+            for off in offs:
+                jb = product_job(P, f'run-{nm}-L{L}-o{off}', G, sc(kind, w, prefix=head + run[:off], suffix=run[off + w:] + tail, api='cfg', fl=flags(**fl), cap=3),
+                                 T(tier, 60, 300), f'{kind} {head!r} + run of {L} x {fill!r} with bytes {off}..{off + w - 1} symbolic + {tail!r}',
+                                 family=f'run-{nm}', mandatory=False, validate_every=60, **kw)
+                jb.small = True; J.append(jb)
+    return J
